@@ -1,12 +1,12 @@
 package main
 
 import (
+	"bytes"
 	"crypto/ecdsa"
+	"crypto/ed25519"
 	"crypto/elliptic"
 	"crypto/rand"
 	"crypto/rsa"
-	"bytes"
-	"crypto/ed25519"
 	"encoding/pem"
 	"errors"
 	"fmt"
@@ -238,8 +238,8 @@ func runRPC(args []string) []string {
 
 type rawKey []byte
 
-func (r rawKey) Type() string               { return "raw" }
-func (r rawKey) Marshal() []byte            { return r }
+func (r rawKey) Type() string                        { return "raw" }
+func (r rawKey) Marshal() []byte                     { return r }
 func (r rawKey) Verify([]byte, *ssh.Signature) error { return nil }
 
 func genRPC(g *hx.Gen, out *hx.Out) {
@@ -412,7 +412,6 @@ func genSlots(g *hx.Gen, out *hx.Out) {
 		emit(b.String(), 0, "local")
 	}
 }
-
 
 var rpcKeyBlobs [][]byte
 
